@@ -190,6 +190,22 @@ def run(tier):
                       'first_bad_event_position': pos,
                       'first_bad_event': r['events'][pos - 1],
                       'previous_event': r['events'][pos - 2] if pos >= 2 else None})
+    def _corrupt(r):
+        if not r['deterministic'] or r['id'] in rej:
+            return None
+        dec = [j for j, e in enumerate(r['events']) if e['kind'] == 'decode' and not e['raised']]
+        seen = {}
+        for j in dec:
+            key = tuple(r['events'][j]['syn'])
+            if key in seen:
+                cz = r['events'][j]['corr']['z']
+                r['events'][j]['corr']['z'] = cz[1:] if cz else [0]
+                r['events'] = r['events'][:j + 1]
+                return r
+            seen[key] = j
+        return None
+    common.binding_selftest('c06', 'DecoderContract', recs, _corrupt,
+                            evaluator=lambda rr: D.eval_traces(rr, 'c06-selftest', shards=1))
     rc = v.finish()
     n_dec = sum(1 for r in recs for e in r['events'] if e['kind'] == 'decode')
     common.write_evidence(
